@@ -247,10 +247,10 @@ Qed.
 
 (* ---- the canonical image ---- *)
 (* [ptrs], [text] sorted by cell, [labels] sorted by address: the content, listed without hash maps *)
-Definition canonical (e : endian) (d : bytes) (ptrs : list (N * N)) (text : list (N * bytes)) (labels : list (N * list bytes))
+Definition canonical (kf : name_key) (e : endian) (d : bytes) (ptrs : list (N * N)) (text : list (N * bytes)) (labels : list (N * list bytes))
   : outcome bytes :=
-  (* labels ordered by address (little-endian) or by name, then address (big-endian) *)
-  let labels' := match e with LE => labels | BE => isort label_leb_be labels end in
+  (* labels ordered by address (little-endian) or by the keys of their names, then address (big-endian) *)
+  let labels' := match e with LE => labels | BE => isort (label_leb_be_k kf) labels end in
   (* text section: label names in emission order, then strings in first-use order; every distinct string once *)
   let items := dedup (concat (map snd labels') ++ map snd text) in
   let ltab := label_entries items labels' in
@@ -263,8 +263,8 @@ Definition canonical (e : endian) (d : bytes) (ptrs : list (N * N)) (text : list
   Ok (enc e 4 fsz ++ enc e 4 (lenN d) ++ enc e 4 (lenL ptab) ++ enc e 4 (lenL ltab / 2) ++ zeros 16
       ++ d2 ++ u32s e ptab ++ u32s e ltab ++ tsection items).
 
-Definition canonical_size (e : endian) (d : bytes) (ptrs : list (N * N)) (text : list (N * bytes)) (labels : list (N * list bytes)) : N :=
-  let labels' := match e with LE => labels | BE => isort label_leb_be labels end in
+Definition canonical_size (kf : name_key) (e : endian) (d : bytes) (ptrs : list (N * N)) (text : list (N * bytes)) (labels : list (N * list bytes)) : N :=
+  let labels' := match e with LE => labels | BE => isort (label_leb_be_k kf) labels end in
   let items := dedup (concat (map snd labels') ++ map snd text) in
   32 + lenN d + 4 * (lenL ptrs + lenL text) + 4 * lenL (label_entries items labels') + lenN (tsection items).
 
@@ -311,14 +311,15 @@ Proof.
   apply sgroup_add_cells in H. destruct H as [->|H]; [left; left; reflexivity | right; exact H].
 Qed.
 
-Theorem serialize_is_canonical m a :
+Theorem serialize_is_canonical kf m a :
+  keys_separate kf (a_labels a) ->
   a_cstrs a = [] ->
   Forall (fun p => fst p < U32) (a_text a) ->
-  canonical_size (a_endian a) (a_data a) (isort key_leb (a_ptrs a)) (isort key_leb (a_text a)) (isort key_leb (a_labels a)) < U32 ->
-  serialize m a =
-    canonical (a_endian a) (a_data a) (isort key_leb (a_ptrs a)) (isort key_leb (a_text a)) (isort key_leb (a_labels a)).
+  canonical_size kf (a_endian a) (a_data a) (isort key_leb (a_ptrs a)) (isort key_leb (a_text a)) (isort key_leb (a_labels a)) < U32 ->
+  serialize_k kf m a =
+    canonical kf (a_endian a) (a_data a) (isort key_leb (a_ptrs a)) (isort key_leb (a_text a)) (isort key_leb (a_labels a)).
 Proof.
-  intros Hcs Hcells Hfit. unfold serialize, canonical. rewrite Hcs.
+  intros Hsep Hcs Hcells Hfit. unfold serialize_k, canonical. rewrite Hcs.
   change (isort (fun x y : bytes * list N => bytes_leb (fst x) (fst y)) []) with (@nil (bytes * list N)).
   cbn [cstr_pool]. rewrite app_nil_r.
   change (pad_to 4 (p_raw pool_empty)) with (@nil N). change (lenN []) with 0.
@@ -326,11 +327,10 @@ Proof.
   change (fun x y : N * bytes => fst x <=? fst y) with (@key_leb bytes).
   set (ptrs := isort key_leb (a_ptrs a)). set (text := isort key_leb (a_text a)).
   set (e := a_endian a).
-  set (labels' := isort match e with BE => label_leb_be | LE => label_leb_le end (a_labels a)).
-  assert (Hlab : labels' = match e with LE => isort key_leb (a_labels a) | BE => isort label_leb_be (isort key_leb (a_labels a)) end).
-  { unfold labels'. destruct e; [reflexivity|].
-    apply isort_perm_invariant; [apply label_leb_be_total | apply label_leb_be_trans | | apply isort_perm].
-    intros x y _ _. apply label_leb_be_antisym. }
+  set (labels' := isort (label_leb kf e) (a_labels a)).
+  assert (Hlab : labels' = match e with LE => isort key_leb (a_labels a) | BE => isort (label_leb_be_k kf) (isort key_leb (a_labels a)) end).
+  { unfold labels', label_leb. destruct e; [reflexivity|].
+    apply isort_labels_be_perm_invariant_sep; [exact Hsep | apply isort_perm]. }
   rewrite <- Hlab. unfold canonical_size in Hfit. fold e ptrs text in Hfit. rewrite <- Hlab in Hfit. clear Hlab.
   destruct (poke_all e (a_data a) ptrs) as [d1|er|k]; cbn [bind]; try reflexivity.
   (* labels *)
@@ -391,3 +391,22 @@ Proof.
   - lia.
   - lia.
 Qed.
+
+(* the two usual ways to meet [keys_separate]: a key function injective on the label names of the archive, or
+   distinct label addresses (every archive the API builds) *)
+Corollary serialize_is_canonical_inj kf m a :
+  key_injective_on kf (label_names_of (a_labels a)) ->
+  a_cstrs a = [] ->
+  Forall (fun p => fst p < U32) (a_text a) ->
+  canonical_size kf (a_endian a) (a_data a) (isort key_leb (a_ptrs a)) (isort key_leb (a_text a)) (isort key_leb (a_labels a)) < U32 ->
+  serialize_k kf m a =
+    canonical kf (a_endian a) (a_data a) (isort key_leb (a_ptrs a)) (isort key_leb (a_text a)) (isort key_leb (a_labels a)).
+Proof. intros H. exact (serialize_is_canonical kf m a (keys_separate_inj kf _ H)). Qed.
+Corollary serialize_is_canonical_maps kf m a :
+  NoDup (map fst (a_labels a)) ->
+  a_cstrs a = [] ->
+  Forall (fun p => fst p < U32) (a_text a) ->
+  canonical_size kf (a_endian a) (a_data a) (isort key_leb (a_ptrs a)) (isort key_leb (a_text a)) (isort key_leb (a_labels a)) < U32 ->
+  serialize_k kf m a =
+    canonical kf (a_endian a) (a_data a) (isort key_leb (a_ptrs a)) (isort key_leb (a_text a)) (isort key_leb (a_labels a)).
+Proof. intros H. exact (serialize_is_canonical kf m a (keys_separate_nodup kf _ H)). Qed.
